@@ -16,7 +16,10 @@ class Impl:
   """A description built on a real cfg.Program; `desc` is what the implementation itself reports
   (incoming order, conditions, origins, and the iteration order of Origin::source_sets)."""
 
-  def __init__(self, d):
+  def __init__(self, d, probes=None):
+    """probes: queries issued (answers discarded) after every AddOrigin while the graph is being built, so the
+    Program's solver is created, asked and must be invalidated again before each further mutation ("staged"
+    construction: the final answers then depend on every mutation path dropping the memo)."""
     from pytype.typegraph import cfg
     self.p = cfg.Program()
     p = self.p
@@ -37,10 +40,26 @@ class Impl:
     for i, n in enumerate(d["nodes"]):
       for m in n["inc"]:
         self.nodes[m].ConnectTo(self.nodes[i])
-    for i, b in enumerate(d["bindings"]):
-      for where, ssets in b["origins"]:
-        for ss in ssets:
-          self.bindings[i].AddOrigin(self.nodes[where], [self.bindings[x] for x in ss])
+    if not probes:
+      for i, b in enumerate(d["bindings"]):
+        for where, ssets in b["origins"]:
+          for ss in ssets:
+            self.bindings[i].AddOrigin(self.nodes[where], [self.bindings[x] for x in ss])
+    else:
+      # staged: the way the VM itself adds origins (Variable.AddBinding(data, source_set, where) on data the
+      # variable already holds), first one source set per origin, then the further source sets of existing
+      # origins LAST, the probes asked after every step
+      for later in (False, True):
+        for i, b in enumerate(d["bindings"]):
+          for where, ssets in b["origins"]:
+            for ss in (ssets[1:] if later else ssets[:1]):
+              got = self.vars[b["var"]].AddBinding(self.data[i], [self.bindings[x] for x in ss], self.nodes[where])
+              if got.id != self.bindings[i].id:
+                raise ValueError("AddBinding returned another binding")
+              try:
+                self.run(probes)
+              except Exception:  # pylint: disable=broad-except
+                pass
     self.desc = self.readback()
 
   def readback(self):
